@@ -27,7 +27,11 @@ void h_c13_detect(void)
                 int c = 0;
 #ifndef KV_C13_FULL
                 /* representatives: 3 shared letters, 2 nucleotide-only, 3 protein-only, 2 letters in neither model, 3 non-letters */
+#ifdef KV_C13_REPS6
+                if(i=='A'||i=='U'||i=='D'||i=='y'||i=='B'||i=='-')
+#else
                 if(i=='A'||i=='c'||i=='N'||i=='U'||i=='u'||i=='D'||i=='y'||i=='E'||i=='B'||i=='x'||i=='-'||i=='.'||i=='*')
+#endif
 #endif
                 {
                         c = kv_in_int();
